@@ -874,4 +874,220 @@ theorem urun_chunks (F : Bytes) (n : Nat) : ∀ (u : Ul), u.st = .sending → 0 
       refine ⟨g1, ?_, g3, g4⟩
       rw [g2]; dsimp only; omega
 
+/-! ### retry control plane -/
+
+namespace Ctl
+
+
+theorem inv_init : invB S.init = true := by decide
+
+theorem settleU_mono (l : List ToU) : ∀ h, settleU false l = true → settleU h l = true := by
+  induction l with
+  | nil => intro h hh; simp [settleU] at hh
+  | cons m r ih =>
+    intro h hh
+    cases m
+    · simpa [settleU] using hh
+    · simp only [settleU] at hh ⊢; exact ih _ hh
+    · simpa [settleU] using hh
+
+theorem settleU_ptq (l : List ToU) : ∀ h, settleU h (l ++ [.ptq]) = true := by
+  induction l with
+  | nil => intro h; simp [settleU]
+  | cons m r ih => intro h; cases m <;> simp only [List.cons_append, settleU] <;> exact ih _
+
+theorem settleU_replyOk (l : List ToU) : ∀ h, settleU h (l ++ [.replyOk]) = settleU h l := by
+  induction l with
+  | nil => intro h; simp [settleU]
+  | cons m r ih => intro h; cases m <;> simp only [List.cons_append, settleU] <;> exact ih _
+
+/-- Prop form of the invariant -/
+structure Inv (s : S) : Prop where
+  held : retryable s.d = true → s.rq = true → settleU (uHolds s.u) s.toU = true ∨ .puf ∈ s.toD
+  run : s.d = .downloading → s.rq = false
+
+theorem invB_iff (s : S) : invB s = true ↔ Inv s := by
+  constructor
+  · intro h
+    simp only [invB, Bool.and_eq_true, Bool.or_eq_true, List.contains_iff_mem,
+      Bool.and_eq_false_iff, Bool.not_eq_eq_eq_not, Bool.not_true, decide_eq_false_iff_not] at h
+    refine ⟨fun h1 h2 => ?_, fun h1 => ?_⟩
+    · rcases h.1 with (h3 | h3) | h3
+      · rcases h3 with h3 | h3 <;> simp_all
+      · exact Or.inl h3
+      · exact Or.inr h3
+    · rcases h.2 with h3 | h3
+      · exact absurd h1 h3
+      · exact h3
+  · intro ⟨h1, h2⟩
+    simp only [invB, Bool.and_eq_true, Bool.or_eq_true, List.contains_iff_mem,
+      Bool.and_eq_false_iff, Bool.not_eq_eq_eq_not, Bool.not_true, decide_eq_false_iff_not]
+    refine ⟨?_, ?_⟩
+    · by_cases hr : retryable s.d = true
+      · by_cases hq : s.rq = true
+        · rcases h1 hr hq with h | h
+          · exact Or.inl (Or.inr h)
+          · exact Or.inr h
+        · exact Or.inl (Or.inl (Or.inr (by simpa using hq)))
+      · exact Or.inl (Or.inl (Or.inl (by simpa using hr)))
+    · by_cases hd : s.d = .downloading
+      · exact Or.inr (h2 hd)
+      · exact Or.inl hd
+
+
+theorem uHolds_or (u : U) : uHolds u = true ∨ (u = .none ∨ u = .failed ∨ u = .refused ∨ u = .complete) := by
+  cases u <;> simp [uHolds]
+
+theorem inv_step (s : S) (op : Op) (h : Inv s) : Inv (step s op) := by
+  obtain ⟨d, rq, u, toU, toD⟩ := s
+  obtain ⟨h1, h2⟩ := h
+  simp only at h1 h2
+  cases op with
+  | dCycle =>
+    simp only [step]
+    split
+    · rename_i hc
+      refine ⟨fun _ _ => Or.inl (settleU_ptq _ _), fun hd => ?_⟩
+      simp only at hd; subst hd; simp [retryable] at hc
+    · exact ⟨h1, h2⟩
+  | uRecv =>
+    cases toU with
+    | nil => exact ⟨h1, h2⟩
+    | cons m r =>
+      cases m with
+      | ptq =>
+        simp only [step]
+        split
+        · exact ⟨fun a b => (h1 a b).imp (fun x => by simpa [settleU, uHolds] using x) id, h2⟩
+        · rename_i hu
+          refine ⟨fun a b => (h1 a b).imp (fun x => ?_) id, h2⟩
+          rcases uHolds_or u with hh | hh
+          · simp only [settleU] at x; rw [hh]; exact x
+          · exact absurd hh hu
+      | replyOk =>
+        simp only [step]
+        split
+        · rename_i hu
+          subst hu
+          exact ⟨fun a b => (h1 a b).imp (fun x => by simpa [settleU, uHolds] using x) id, h2⟩
+        · exact ⟨fun a b => (h1 a b).imp (fun x => by simpa [settleU] using x) id, h2⟩
+      | replyNo =>
+        simp only [step]
+        split
+        · rename_i hu
+          subst hu
+          exact ⟨fun a b => (h1 a b).imp (fun x => by simpa [settleU, uHolds] using x) id, h2⟩
+        · exact ⟨fun a b => (h1 a b).imp (fun x => settleU_mono _ _ (by simpa [settleU] using x)) id, h2⟩
+  | uCycle =>
+    simp only [step]
+    split
+    · rename_i hu
+      subst hu
+      refine ⟨fun a b => (h1 a b).imp (fun x => by simpa [uHolds] using x) (fun x => ?_), h2⟩
+      exact List.mem_append_left _ x
+    · exact ⟨h1, h2⟩
+  | dRecv =>
+    cases toD with
+    | nil => exact ⟨h1, h2⟩
+    | cons m r =>
+      cases m with
+      | ptr =>
+        simp only [step]
+        split
+        · exact ⟨fun a => by simp [retryable] at a, fun a => by simp at a⟩
+        · rename_i hr
+          split
+          · exact ⟨fun a => absurd a hr, h2⟩
+          · refine ⟨fun a b => (h1 a b).imp id (fun x => ?_), h2⟩
+            simpa using x
+      | puf =>
+        simp only [step]
+        exact ⟨fun _ b => by simp at b, fun _ => rfl⟩
+  | fUp =>
+    simp only [step]
+    split
+    · exact ⟨fun a => by simp [retryable] at a, fun _ => rfl⟩
+    · exact ⟨h1, h2⟩
+  | estFailD =>
+    simp only [step]
+    split
+    · exact ⟨fun _ b => by simp at b, fun a => by simp at a⟩
+    · exact ⟨h1, h2⟩
+  | estFailU =>
+    simp only [step]
+    split
+    · rename_i hu
+      refine ⟨fun a b => (h1 a b).imp (fun x => ?_) id, h2⟩
+      rcases hu with hu | hu <;> subst hu <;> simpa [uHolds] using x
+    · exact ⟨h1, h2⟩
+  | uWroteAll =>
+    simp only [step]
+    split
+    · rename_i hu; subst hu
+      exact ⟨fun a b => (h1 a b).imp (fun x => by simpa [uHolds] using x) id, h2⟩
+    · exact ⟨h1, h2⟩
+  | dDone =>
+    simp only [step]
+    split
+    · exact ⟨fun a => by simp [retryable] at a, fun a => by simp at a⟩
+    · exact ⟨h1, h2⟩
+  | uEof =>
+    simp only [step]
+    split
+    · rename_i hu
+      obtain ⟨_, hd⟩ := hu
+      subst hd
+      exact ⟨fun a => by simp [retryable] at a, fun a => by simp at a⟩
+    · exact ⟨h1, h2⟩
+  | dLearn =>
+    simp only [step]
+    split
+    · rename_i hd
+      have hq := h2 hd
+      exact ⟨fun _ b => (by simp only at b; rw [hq] at b; exact absurd b (by simp)), fun a => by simp at a⟩
+    · exact ⟨h1, h2⟩
+  | uLearn =>
+    simp only [step]
+    split
+    · exact ⟨fun _ _ => Or.inr (by simp), h2⟩
+    · exact ⟨h1, h2⟩
+  | dUser =>
+    simp only [step]
+    split
+    · exact ⟨h1, h2⟩
+    · exact ⟨fun a => by simp [retryable] at a, fun a => by simp at a⟩
+  | dQueue =>
+    simp only [step]
+    split
+    · exact ⟨fun _ b => by simp at b, fun a => by simp at a⟩
+    · exact ⟨h1, h2⟩
+
+
+theorem inv_run (ops : List Op) : ∀ s, Inv s → Inv (run s ops) := by
+  induction ops with
+  | nil => intro s h; exact h
+  | cons op ops ih => intro s h; exact ih _ (inv_step s op h)
+
+theorem round_completes (s : S) (hi : Inv s) (hq : quiescent s = true) (hr : retryable s.d = true) :
+    (run s round).d = .complete ∧ (run s round).u = .complete ∧ quiescent (run s round) = true := by
+  obtain ⟨d, rq, u, toU, toD⟩ := s
+  have h1 := hi.held
+  have e1 : toU = [] := by
+    cases toU with
+    | nil => rfl
+    | cons a b => simp [quiescent] at hq
+  have e2 : toD = [] := by
+    cases toD with
+    | nil => rfl
+    | cons a b => simp [quiescent] at hq
+  subst e1; subst e2
+  cases d <;> cases u <;> cases rq <;> first
+    | decide
+    | (exfalso; revert hr; decide)
+    | (exfalso; revert hq; decide)
+    | (exfalso; have := h1 (by decide) rfl; revert this; decide)
+
+
+end Ctl
+
 end AioslskVerif.FileXfer
